@@ -1373,5 +1373,64 @@ theorem inv_gset (P : Params V) (T : Tables) (hcov : Coverage T = true) (w : Wor
     simp only [hm', Bool.not_false, if_true]
     exact hinv
 
+/-- operations that change which glyph a name denotes -/
+def Op.isNameOp : Op → Bool
+  | .newGlyph _ => true
+  | .delGlyph _ => true
+  | .rename _ _ => true
+  | _ => false
+
+/-- every operation that leaves the layer's name map alone preserves the cache invariant -/
+theorem step_inv_local (P : Params V) (T : Tables) (hcov : Coverage T = true) (hpatch : PatchOK P) (w : World V)
+    (op : Op) (hn : op.isNameOp = false) (hinv : Inv P T w) (hdom : Dom w) (hdom' : Dom (step P T w op).1) :
+    Inv P T (step P T w op).1 := by
+  cases op with
+  | register cls name => exact inv_register P T w cls name hinv
+  | get o name kw => exact inv_get P T w o name kw hinv
+  | has o name kw => exact hinv
+  | keys o => exact hinv
+  | destroy o name kw =>
+    unfold step
+    cases kw with
+    | nil =>
+      refine inv_shrink P T w o _ hinv (fun nm sk v h => ?_)
+      rw [Cache.get?_destroyName] at h
+      by_cases e : name = nm
+      · simp [e] at h
+      · simpa [e] using h
+    | cons a r =>
+      refine inv_shrink P T w o _ hinv (fun nm sk v h => ?_)
+      rw [Cache.get?_destroyOne] at h
+      by_cases e : name = nm ∧ makeSubKey (a :: r) = sk
+      · simp [e] at h
+      · simpa [e] using h
+  | destroyAll o =>
+    exact inv_shrink P T w o [] hinv (fun nm sk v h => by simp [Cache.get?] at h)
+  | mkContour cid =>
+    unfold step
+    by_cases h : exists? w (.contour cid) = true
+    · simpa [h] using hinv
+    · simp only [h]
+      exact inv_loose_change P T w _ hinv rfl rfl rfl rfl rfl
+  | mkComp kid base =>
+    unfold step
+    by_cases h : exists? w (.comp kid) = true
+    · simpa [h] using hinv
+    · simp only [h]
+      exact inv_loose_change P T w _ hinv rfl rfl rfl rfl rfl
+  | cmut cid meth => exact inv_cmut P T hcov w cid meth hinv hdom hdom'
+  | cmove cid dx dy => exact inv_cmove P T hcov hpatch w cid dx dy hinv hdom hdom'
+  | kmut kid meth => exact inv_kmut P T hcov w kid meth hinv hdom hdom'
+  | ksetBase kid base => exact inv_ksetBase P T hcov w kid base hinv hdom hdom'
+  | gmut g meth => exact inv_gmut P T hcov w g meth hinv hdom hdom'
+  | insContour g cid idx => exact inv_insContour P T hcov w g cid idx hinv hdom hdom'
+  | remContour g cid => exact inv_remContour P T hcov w g cid hinv hdom hdom'
+  | insComp g kid idx => exact inv_insComp P T hcov w g kid idx hinv hdom hdom'
+  | remComp g kid => exact inv_remComp P T hcov w g kid hinv hdom hdom'
+  | newGlyph name => cases hn
+  | delGlyph name => cases hn
+  | rename old new => cases hn
+  | gset meth => exact inv_gset P T hcov w meth hinv
+
 end Repr
 end DefconModel
